@@ -93,12 +93,12 @@ func cmdCheck(args []string) {
 	}
 	timeout := ps.TimeoutQuick
 	if timeout == 0 {
-		timeout = 10
+		timeout = 30
 	}
 	if tier == "thorough" {
 		timeout = ps.TimeoutThorough
 		if timeout == 0 {
-			timeout = 60
+			timeout = 120
 		}
 	}
 	outDir := filepath.Join(verifDir, "out", prop)
@@ -118,7 +118,7 @@ func cmdCheck(args []string) {
 	// preludes
 	var vcPre, recPre string
 	lemmaDefined := map[string]bool{}
-	for _, f := range ps.Preludes {
+	for _, f := range append([]string{"spec/common.smt2"}, ps.Preludes...) {
 		b, err := os.ReadFile(filepath.Join(verifDir, f))
 		if err != nil {
 			fmt.Fprintln(os.Stderr, "gocv:", err)
